@@ -3,6 +3,7 @@ import Model.Pass.Synth
 import Model.Lib.Ops
 import Model.Lib.Barrel
 import Model.Lib.Adders
+import Model.Gen.Conv
 /-! `basic` command: the Lean models of the bit-level generators on concrete operands. -/
 open Lean
 namespace Pyrtl.Drv
@@ -85,5 +86,35 @@ def cmdAdder (j : Lean.Json) : Except String Lean.Json := do
     | _ => throw s!"unknown adder {fn}"
   return Lean.Json.mkObj [("ok", .bool true), ("width", natJson ((outs.headD []).length)),
                           ("vals", .arr (outs.map fun o => natJson (Pyrtl.Synth.toNat o)).toArray)]
+
+end Pyrtl.Drv
+
+namespace Pyrtl.Drv
+open Pyrtl.Gen.Conv
+
+/-- `conv` command: the translated conversion helpers on concrete arguments.
+    cases: [[a, b, flag], ...]; `null` result = the Python function raises. -/
+def cmdConv (j : Lean.Json) : Except String Lean.Json := do
+  let fn ← jStr (← field j "fn")
+  let cases ← (← jArr (← field j "cases")).toList.mapM jIntList
+  let outs ← cases.mapM fun c => do
+    let a : Int := c.getD 0 0
+    let b : Int := c.getD 1 0
+    let fv : Int := c.getD 2 0
+    let f : Bool := decide (fv ≠ 0)
+    let pair (r : Option (Int × Int)) : Lean.Json := match r with
+      | none => .null
+      | some (x, y) => .arr #[intJson x, intJson y]
+    let one (r : Option Int) : Lean.Json := match r with
+      | none => .null
+      | some x => intJson x
+    match fn with
+    | "convert_int" => pure (pair (convertInt a b f))
+    | "convert_bool" => pure (pair (convertBool (decide (a ≠ 0)) b f))
+    | "val_to_signed" => pure (one (valToSigned a b))
+    | "twos_comp_repr" => pure (one (twosCompRepr a b))
+    | "rev_twos_comp_repr" => pure (one (revTwosCompRepr a b))
+    | _ => throw s!"unknown conv fn {fn}"
+  return Lean.Json.mkObj [("ok", .bool true), ("vals", .arr outs.toArray)]
 
 end Pyrtl.Drv
